@@ -38,8 +38,9 @@ ConstExp(api, n, l, m, ety) ==
             <<0, e.parts[1].len, SumCells(1, e.parts[1].len, ety), e.parts[2].len, SumCells(e.parts[2].off + 1, l, ety), e.cnt>>
       [] api = "chunks_from_slice_mut" ->
             <<0, e.parts[1].len, SumPoked(1, e.parts[1].len, ety), e.parts[2].len, SumPoked(e.parts[2].off + 1, l, ety), e.cnt>>
-      [] api \in {"from_chunks", "into_chunks", "into_chunks_mut"} -> <<0, m * n, SumCells(1, m * n, ety), 0, 0, m>>
-      [] api = "from_chunks_mut" -> <<0, m * n, SumPoked(1, m * n, ety), 0, 0, m>>
+      [] api \in {"from_chunks", "into_chunks"} -> <<0, m * n, SumCells(1, m * n, ety), 0, 0, m>>
+      \* the mutable casts are written through (first cell), also inside the const evaluator
+      [] api \in {"from_chunks_mut", "into_chunks_mut"} -> <<0, m * n, SumPoked(1, m * n, ety), 0, 0, m>>
       [] api = "slice_from_chunks" -> ok1(m * n, SumCells(1, m * n, ety))
       [] api = "slice_from_chunks_mut" -> ok1(m * n, SumPoked(1, m * n, ety))
       [] api = "array_roundtrip" -> <<0, n, SumCells(1, n, ety), n, SumCells(1, n, ety), -1>>
